@@ -1,2 +1,61 @@
-import Tftp.Model.Sender
-import Tftp.Model.Receiver
+import Tftp.Props.C01
+import Tftp.Props.C08
+/-!
+# C15 — Block-number wrap-around
+
+The theorems of C01, C07 and C08 are proved for files of *any* length: `k` ranges over all of
+`1..N` with no bound on `N`, wire numbers are `k mod 65536`. What is specific to the wrap is stated here.
+-/
+namespace Tftp
+
+/-- an acknowledgement number is attributed to at most one outstanding block: since the window holds
+at most `windowsize ≤ 65535 < 65536` blocks, two distinct outstanding blocks never share a wire number -/
+theorem c15_ack_unique_in_window (c : SCfg) (hw : c.w < 65536) (f : Bytes) (s : SState) (h : SInv c f s)
+    (i j : Nat) (hi : i < s.win.elems.length) (hj : j < s.win.elems.length)
+    (heq : (s.bn + i) % 65536 = (s.bn + j) % 65536) : i = j := by
+  have := h.len_le
+  omega
+
+/-- an accepted ACK `n` moves the window to exactly the block after the one it names — the absolute
+index advances by `diff + 1 ≤ windowsize`, never by 65536 more or less — and the wire number of the
+new front is that absolute index mod 65536 (across the wrap: …, 65535, 0, 1, …) -/
+theorem c15_slide_exact (c : SCfg) (hb : 0 < c.b) (hw : c.w < 65536) (f : Bytes) (s : SState) (h : SInv c f s)
+    (hrun : s.status = .running) (n dt : Nat) (hin : (n + 65536 - s.bn) % 65536 < s.win.elems.length) :
+    (sStep c s (.ack n) dt).1.base = s.base + (n + 65536 - s.bn) % 65536 + 1 ∧
+    (s.base + (n + 65536 - s.bn) % 65536) % 65536 = n % 65536 ∧
+    (sStep c s (.ack n) dt).1.bn = (sStep c s (.ack n) dt).1.base % 65536 := by
+  have h1 := c08_cumulative c hb hw f s h hrun n dt hin
+  have hinv := (step_good hb hw h (.ack n) dt).1
+  refine ⟨h1.1, ?_, hinv.bn_eq⟩
+  have := h.bn_eq
+  have := h.len_le
+  omega
+
+/-- the sender's data theorem with the wrap made explicit: block `k` of a file with more than 65535
+blocks is emitted as number `k mod 65536` carrying exactly its own bytes -/
+theorem c15_sender_any_length (c : SCfg) (hb : 0 < c.b) (hw : c.w < 65536) (f : Bytes) (chk : Bool)
+    (evs : List (SEv × Nat)) (_hlong : 65535 < nblocks c.b f) :
+    ∀ g ∈ (sRun c f chk evs).1, ∀ p ∈ g, GoodPkt c f p :=
+  c01_data_is_slice c hb hw f chk evs
+
+/-- the receiver's expected number after 65535 is 0 -/
+theorem c15_receiver_expected_wraps (c : RCfg) (s : RState) (hrun : s.status = .running) (hbn : s.bn = 65535)
+    (payload : Bytes) (hfull : ¬ payload.length < c.b) :
+    (rStep c s (.data 0 payload)).1.bn = 0 ∨ (rStep c s (.data 0 payload)).1.status = .failed := by
+  unfold rStep
+  simp only [hrun, hbn]
+  have : (0 : Nat) = (65535 + 1) % 65536 := by decide
+  simp only [← this, ↓reduceIte]
+  split
+  · simp only [hfull, ↓reduceIte]
+    split
+    · unfold flushAck
+      split <;> simp
+    · left; rfl
+  · right; rfl
+
+/-! non-vacuity: a window straddling the wrap (file of 65537 one-byte blocks would be large; the
+arithmetic fact is shown on the numbers) -/
+example : (65535 + 1) % 65536 = 0 ∧ (65534 + 3) % 65536 = 1 := by decide
+
+end Tftp
